@@ -137,6 +137,20 @@ Section Sane.
     exists s'. auto.
   Qed.
 
+  (** ... and with listings in kernel order. *)
+  Theorem sane_run_nf0 {A} (p : prog A) (Q : A -> S -> Prop) s (I : S -> fs -> Prop) :
+    wpv p Q s ->
+    (forall s ev s' f f', m s ev = Some s' -> astep0 f ev f' -> names_plain f -> I s f -> I s' f') ->
+    forall w o, o_fault o = None -> o_orders o = [] -> names_plain (w_fs w) -> I s (w_fs w) ->
+    let '(a, w', _, tr) := run p w o in exists s', Q a s' /\ I s' (w_fs w') /\ names_plain (w_fs w').
+  Proof.
+    intros Hwp Hstep w o Hnf Hno Hpl HI.
+    pose proof (wp_run lift p _ (Some s) w o Hwp) as Hr. pose proof (run_asteps0 p w o Hnf Hno) as Hs.
+    destruct (run p w o) as [[[a w'] o'] tr]. destruct Hr as (s1 & Hm & HQ).
+    destruct (sane_trace astep0 (fun f ev f' H => astep_step1 _ _ _ (astep0_astep _ _ _ H)) I Hstep tr _ _ s s1 Hs Hm Hpl HI) as (s' & -> & H1 & H2).
+    exists s'. cbn in HQ. auto.
+  Qed.
+
   (** The same, also exposing the monitor's run over the trace (to relate the
       final states of two monitors on one run). *)
   Theorem sane_run_nf_tr {A} (p : prog A) (Q : A -> S -> Prop) s (I : S -> fs -> Prop) :
